@@ -395,7 +395,9 @@ def save_score_midi(
 
         def to_ppq(t):
             # convert div times to new ppq
-            return int(ppq * (qm(t) - ftp))
+            # the exact value is an integer (ppq is a multiple of every quarter
+            # duration); the float product may fall just below it, so round
+            return int(np.round(ppq * (qm(t) - ftp)))
 
         for tp in part.iter_all(score.Tempo):
             tempos[to_ppq(tp.start.t)] = MetaMessage(
